@@ -32,13 +32,20 @@ MANIFEST = {
             "to the code by building random (cdef, C source) pairs three ways and comparing every probe pairwise.",
     "note": "PARTIAL: only the conversion layer (macro dispatch, constant protocols, value checks) is modelled and proved; "
             "everything else in a verify() library is generated C compiled by gcc (setuptools) or reached through libffi and "
-            "is covered by the three-way correspondence only. ffi.addressof(lib, name) and ffi.integer_const are not compared "
+            "is covered by the three-way correspondence only -- in particular that a struct returned BY VALUE is a fresh object per "
+            "call (no Lean statement): every pair runs a stateful session of interleaved calls (by-value struct results and "
+            "arguments, pointers into test-owned and static storage, a struct global, primitives) in which every returned "
+            "object is kept, written through, and re-read after all calls; immediate values, final re-reads and the address "
+            "aliasing of the kept objects must agree across the three builds. Callbacks are not covered by C33. "
+            "ffi.addressof(lib, name) and ffi.integer_const are not compared "
             "(not offered for verify() libraries / answered by the in-line parser). 'typedef int... t' is API-mode only and "
             "is not generated here.",
     "technique": "Lean 4 proof (terms regenerated from the Python/C sources; omega) + three-way differential correspondence "
                  "(set_source module, verify() CPython engine, verify() generic engine)",
 }
-RULE = ("pairs = C12 units (typedefs, structs/unions, #define/enum/static const constants, globals, functions) in their "
+RULE = ("stateful: per pair one script of 40 (80) interleaved steps over by-value struct functions, pointer-returning "
+        "functions, static/global struct storage and integer functions, all results kept and re-read at the end; "
+        "pairs = C12 units (typedefs, structs/unions, #define/enum/static const constants, globals, functions) in their "
         "faithful form and in a '...' form (partial structs, #define X ..., partial enums); each pair built three ways; "
         "a case = one probe evaluated on the three builds; non-trivial = layouts, constants, writes, calls; distinct = "
         "distinct (pair form, item kind, probe, argument values)")
@@ -98,6 +105,7 @@ def run_pair(ctx, rng, uid, form, unit, orig, csource, oracle_only, lines, expec
     probes = [(k, p, w) for k, p, w in G.probes_for(prng, unit, orig, facts, ncalls=ctx.n(6, 10))
               if p["k"] not in ("gaddr", "iconst")]
     ctx.count("pair:" + form)
+    run_sessions(ctx, prng, form, unit, builds, base_case)
     for key, pr, _want in probes:
         obs = {b: G.probe(builds[b][0], builds[b][1], pr) for b in BUILDS}
         nontrivial = pr["k"] not in ("tdsize", "tdneg")
@@ -137,6 +145,27 @@ def run_pair(ctx, rng, uid, form, unit, orig, csource, oracle_only, lines, expec
                                                     obs["vcpy"])])
 
 
+def run_sessions(ctx, prng, form, unit, builds, base_case):
+    """Stateful part: one script of interleaved calls per pair, the same on the three builds; every result is kept
+    and re-read after all calls; immediate results, final re-reads and the aliasing of the kept objects must agree."""
+    steps = G.make_session(prng, unit, nsteps=ctx.n(40, 80))
+    obs = {b: G.run_session(builds[b][0], builds[b][1], unit, steps) for b in BUILDS}
+    for i, st in enumerate(steps):
+        ctx.case((form, "session", st["op"], i), sample=None)
+        ctx.count("session:" + st["op"])
+    for part in ("immediate", "final", "alias"):
+        if not (obs["api"][part] == obs["vcpy"][part] == obs["vgen"][part]):
+            bad = [i for i in range(len(steps)) if len({repr(obs[b][part][i]) for b in BUILDS}) > 1]
+            i = bad[0]
+            ctx.fail(dict(base_case, probe="session", session=steps, part=part, step=i,
+                          observed={b: obs[b][part][i] for b in BUILDS}),
+                     "stateful session: %s of the object kept by step %d (%r) differs between the builds: %r%s"
+                     % (part, i, steps[i], {b: obs[b][part][i] for b in BUILDS},
+                        " (alias = first kept object with the same address)" if part == "alias" else ""))
+            return
+    ctx.count("session:agree")
+
+
 def run_unit(ctx, rng, uid, oracle_only=False):
     orig = G.make_unit(rng, uid, for_verify=True)
     csource = G.render_csource(orig)
@@ -174,9 +203,22 @@ def search(ctx):
         run_unit(ctx, ctx.rng, uid, oracle_only=True)
 
 
+def _vstruct_of(case):
+    text = case["cdef"] if isinstance(case["cdef"], str) else "".join(c[0] for c in case["cdef"])
+    import re
+    name = re.search(r"struct (sv\d+) mk_", text).group(1)
+    return {"name": name}
+
+
 def replay(ctx, obj):
     case = G.unjson(obj["case"])
     builds = build_three(ctx, "replay", case["cdef"], case["csource"])
+    if case.get("probe") == "session":
+        obs = {b: G.run_session(builds[b][0], builds[b][1], {"vstruct": _vstruct_of(case), "funcs": []}, case["session"])
+               for b in BUILDS}
+        i, part = case["step"], case["part"]
+        print("step %d %r, %s: %r" % (i, case["session"][i], part, {b: obs[b][part][i] for b in BUILDS}))
+        return 0 if all(obs["api"][q] == obs["vcpy"][q] == obs["vgen"][q] for q in ("immediate", "final", "alias")) else 1
     if case.get("probe") == "load":
         bad = [b for b in BUILDS if isinstance(builds[b][1], Exception)]
         print("builds that failed to load:", bad)
